@@ -154,7 +154,7 @@ def run_case(case):
 
         fm, rm, spec, consts, var_coords, xobj = make(main)
         ft, rt, _, _, _, _ = make(twin)
-        extra = {**consts, **desc["resources"]}
+        extra = {**desc["resources"], **consts}
 
         def shifted(v):
             """a value of the same family that is not swept"""
